@@ -281,6 +281,15 @@ def gen_formula(rng, depth, counter):
 RAISES = object()
 
 
+class YObj:
+    def combine(self, a, b=0, c=0, d=0):
+        return [a, b, c, d]
+
+
+from yaql import yaqlization as _yz  # noqa: E402
+_yz.yaqlize(YObj)
+
+
 def exact_cases(rng):
     """yields (form, text, vars, expected trace, expected value or NOCHECK, number of unselected operands)"""
     NO = object()
@@ -357,6 +366,10 @@ def exact_cases(rng):
     yield 'selectAllCases-lazy', 'selectAllCases(tick(1, false), tick(2, true), tick(3, 1)).first()', {}, [1, 2], 1, 1
     yield 'assert', '5.assert(tick(1, $ > 1), tick(2, \'msg\'))', {}, [2, 1], 5, 0
     yield 'def', 'def(f, tick(1, $ + 1)) -> [f(tick(2, 1)), f(tick(3, 2))]', {}, [2, 1, 3, 1], [2, 3], 0
+    # a method of a yaqlized host object: arguments left to right, positional and keyword alike
+    yield 'yaqlized-method', '$obj.combine(tick(1, 1), tick(2, 2), c => tick(3, 3), d => tick(4, 4))', {'obj': YObj()}, [1, 2, 3, 4], [1, 2, 3, 4], 0
+    yield 'yaqlized-method-kw-first', '$obj.combine(tick(1, 1), d => tick(2, 4), c => tick(3, 3))', {'obj': YObj()}, [1, 2, 3], [1, 0, 3, 4], 0
+    yield 'yaqlized-method-receiver', 'tick(1, $obj).combine(tick(2, 5))', {'obj': YObj()}, [1, 2], [5, 0, 0, 0], 0
     # the selected operand fails: the failure is the outcome, no other operand is evaluated in its place
     kind = rng.choice(('index', 'zero', 'key', 'nomatch'))
 
